@@ -471,8 +471,16 @@ func (c *Client) TwoPhaseCommit(ctx context.Context, primary []byte, mutations [
 			return err
 		}
 	}
-	if err := c.commitRegion(ctx, primaryID, collectKeys(primaryMutations), startVersion, commitVersion); err != nil {
+	// The primary key's commit record is the transaction's commit point: commit it alone and
+	// first. Commit stops at the first key error, so sending it together with the other keys of
+	// its region could commit a secondary and then fail on the primary.
+	if err := c.commitRegion(ctx, primaryID, [][]byte{primary}, startVersion, commitVersion); err != nil {
 		return err
+	}
+	if rest := secondaryKeys(primaryMutations, primary); len(rest) > 0 {
+		if err := c.commitRegion(ctx, primaryID, rest, startVersion, commitVersion); err != nil {
+			return err
+		}
 	}
 	for regionID, muts := range grouped {
 		if regionID == primaryID {
@@ -937,6 +945,18 @@ func collectKeys(muts []*pb.Mutation) [][]byte {
 	out := make([][]byte, 0, len(muts))
 	for _, mut := range muts {
 		if mut == nil {
+			continue
+		}
+		out = append(out, append([]byte(nil), mut.GetKey()...))
+	}
+	return out
+}
+
+// secondaryKeys returns the keys of muts other than primary, in mutation order.
+func secondaryKeys(muts []*pb.Mutation, primary []byte) [][]byte {
+	out := make([][]byte, 0, len(muts))
+	for _, mut := range muts {
+		if mut == nil || bytesCompare(mut.GetKey(), primary) == 0 {
 			continue
 		}
 		out = append(out, append([]byte(nil), mut.GetKey()...))
